@@ -1112,3 +1112,14 @@ package types
 //@ func FormatTimeBytes(t time.Time) (r []byte)
 //@   props C20
 //@   ensures fresh(r) && strof(r) == time_fmt_utc(t_inst(t), "2006-01-02T15:04:05.000000000")
+
+// C17/C03: the ownership and signer comparisons of the governance and ante code all go through Address.Equals: two
+// addresses are equal exactly when they hold the same bytes (both empty included) - an empty address equals no
+// non-empty one (seed C17e). The value-mode layer uses this as an assumed contract; here it is verified.
+//@ func (aa Address) Equals(aa2 Address) (r bool)
+//@   props C17 C03
+//@   ensures r == (len(aa) == len(aa2) && (forall i int :: 0 <= i && i < len(aa) ==> aa[i] == aa2[i]))
+//@
+//@ func (aa Address) Empty() (r bool)
+//@   props C17 C03
+//@   ensures r == (len(aa) == 0)
